@@ -6,7 +6,7 @@ from oracle_util import *  # noqa
 from tokutil import *  # noqa
 
 ID = "C19"
-LEAN_MODULE = ["SCoda.Props.C19", "SCoda.Props.C19b", "SCoda.Props.Gaps"]
+LEAN_MODULE = ["SCoda.Props.C19", "SCoda.Props.C19b", "SCoda.Props.Gaps", "SCoda.Props.TokTie"]
 LEVEL = "proof"
 CLAUSES = [
     ("the annotation lists have exactly one entry per token and positions count 0,1,2,...", ["SCoda.C19.lengths", "SCoda.C19.positions", "SCoda.C19.getInfo_eq"]),
@@ -26,6 +26,8 @@ CLAUSES = [
     ("streams produced by a THREADED sequence of tokenise calls (each started from the previous call's state): annotated times never decrease and bar ends strictly "
      "increase across call boundaries; the concatenation is accepted by detokenise",
      ["SCoda.Gaps.times_monotone_threaded", "SCoda.Gaps.barEnds_increasing_threaded", "SCoda.Gaps.threaded_accepted"]),
+    ("TIE BY TRANSLATION, tokeniser: MultiTrackLargeVocabularyNotelikeTokeniser is re-translated statement by statement on every run (Gen/TokFns.lean, tools/py2lean_tok.py: __init__, _construct_dictionary, tokenise with its closure _apply_rest as a fuelled loop, detokenise, get_info, encode, decode; f-strings as string concatenation, dicts as association lists, floats as exact rationals) and each translation is proved equal to the hand model the theorems above are about, on rendered token strings: get_info on rendered tokens = the model's getInfo (0 ≤ ppqn, natural-number token fields; never raises), detokenise = model detokenise",
+     ["SCoda.TokTie.getInfo_eq", "SCoda.TokTie.detokenise_eq", "SCoda.TokTie.detokenise_step"]),
 ]
 RULE = ("random streams over the vocabulary of sampled configurations (<=60 tokens: bar tokens in partly filled bars, "
         "signature tokens mid-bar, unfused running values), plus streams produced by tokenise from valid pieces, with and "
